@@ -27,6 +27,9 @@ import weave  # noqa: E402
 import registry  # noqa: E402
 
 REPO = os.environ.get('VERIF_REPO', '/repo')
+# evidence describes /repo itself: a run against another tree (VERIF_REPO: a scratch worktree carrying a seeded change)
+# writes its evidence under .cache instead of overwriting the committed files
+EVIDENCE_DIR = os.path.join(os.path.dirname(os.path.dirname(os.path.abspath(__file__))), 'evidence' if REPO == '/repo' else '.cache/evidence-other-tree')
 CACHE = os.path.join(VERIF, '.cache')
 ASSUME_SCAN_RE = re.compile(r'assume_specification|external_body|\bassume\s*\(|\badmit\s*\(|external_type_specification|external_fn_specification|#\[verifier::external\]')
 
@@ -792,7 +795,7 @@ def main():
         for h in r['hard']:
             undecided.append((r, dict(name='%s#%s' % (r['unit'], h['kind']), desc=h['msg'], cls='H')))
 
-    os.makedirs(os.path.join(VERIF, 'evidence'), exist_ok=True)
+    os.makedirs(EVIDENCE_DIR, exist_ok=True)
     os.makedirs(os.path.join(VERIF, 'replays'), exist_ok=True)
     rc = 0
     lines_out = []
@@ -987,7 +990,7 @@ def write_evidence(prop, tier, seed, cfg, results, violations, known_hits, undec
         wall_s=round(wall, 1),
         violations=len(violations),
     )
-    with open(os.path.join(VERIF, 'evidence', prop + '.json'), 'w') as f:
+    with open(os.path.join(EVIDENCE_DIR, prop + '.json'), 'w') as f:
         json.dump(ev, f, indent=1)
 
 
